@@ -207,8 +207,8 @@ _c("determine",
    cases=[
        dict(when="shorthand", returns="str", ensures=[
            ("shorthand-accidentals-and-degree", "sh_is(result, %s, %s + 1)" % (_OFF, _N))]),
-       dict(when=None, returns="str", ensures=[
-           ("quality-and-number", "result == quality_name(%s, %s) + ' ' + number_name(%s)" % (_OFF, _N, _N))]),
+       dict(when=None, returns="str",
+            result_is="quality_name(%s, %s) + ' ' + number_name(%s)" % (_OFF, _N, _N)),
    ],
    split=[{"assume": "note1[0] == %r and note2[0] == %r" % (a, b)} for a in "CDEFGAB" for b in "CDEFGAB"],
    properties=["C03"], battery="name_pairs_flag")
